@@ -254,7 +254,7 @@ Lemma adj_outer_ok ev s0 orig width starts best v s' :
   ev_ok ev -> reach K s0 orig ->
   adj_outer ev orig width starts best = (ROk v, s') -> reach K s0 s'.
 Proof.
-  intros Hev Ho. revert best. induction starts as [|st more IH]; intros best H; cbn in H; [discriminate|].
+  intros Hev Ho. revert best. induction starts as [|st more IH]; intros best H; cbn [adj_outer] in H; [adj_nil H|].
   pose proof (adj_try_ok ev s0 orig width st best Hev Ho) as Ht.
   destruct (adj_try ev orig width st best); cbn in Ht.
   - inv H. exact Ht.
